@@ -739,7 +739,7 @@ class Interp:
             v.writes.append(name)
             if hasattr(v, "deleted"):
                 v.deleted.discard(name)
-            cur().event("write", v, name)
+            cur().event("write", v, name, value)
             if (v.pre or getattr(v, "published", False)) and isinstance(value, (ListObj, DictObj, Obj)) and not getattr(value, "pre", False):
                 # publication: a freshly built object becomes reachable from shared state; from here on writing it is a write to shared state
                 try:
